@@ -82,7 +82,7 @@ func (p *c19) RandomRuns(tier string) int {
 	if tier == "thorough" {
 		return 600000
 	}
-	return 8000
+	return 20000
 }
 
 type c19Case struct {
